@@ -99,6 +99,41 @@ def make_state(kind, am, ph, unitary_dict=None):
     return st
 
 
+IDIOMS = ["data.copy_", "data-assign", "load_state_dict", "copy_"]
+
+
+def set_params_idiom(rbm, P, how):
+    """write parameters into a live network through one of the usual torch idioms"""
+    names = PUR_NAMES if "U" in P else BIN_NAMES
+    if how == "data.copy_":
+        set_params(rbm, P)
+    elif how == "data-assign":
+        for k, v in P.items():
+            getattr(rbm, names[k]).data = torch.tensor(np.asarray(v), dtype=torch.double)
+    elif how == "load_state_dict":
+        rbm.load_state_dict({names[k]: torch.tensor(np.asarray(v), dtype=torch.double) for k, v in P.items()})
+    else:
+        with torch.no_grad():
+            for k, v in P.items():
+                getattr(rbm, names[k]).copy_(torch.tensor(np.asarray(v), dtype=torch.double))
+
+
+def make_state_used(rng, kind, am, ph, warm, unitary_dict=None):
+    """A state object that has ALREADY been used with other parameters (warm(state) exercises the API under test),
+    and is then given the parameters (am, ph) through a random idiom.  Observable behaviour must depend on the
+    current parameters only: this exposes stale caches / reused buffers keyed on the object rather than its values."""
+    nh, nv = am["W"].shape
+    na = am["U"].shape[0] if "U" in am else None
+    am0, ph0 = draw_model(rng, kind, nv, nh, na, scales=SCALES_SMALL)
+    st = make_state(kind, am0, ph0, unitary_dict=unitary_dict)
+    warm(st)
+    how = IDIOMS[int(rng.integers(0, len(IDIOMS)))]
+    set_params_idiom(st.rbm_am, am, how)
+    if ph is not None:
+        set_params_idiom(st.rbm_ph, ph, IDIOMS[int(rng.integers(0, len(IDIOMS)))])
+    return st, how
+
+
 def all_nonzero(*dicts):
     for P in dicts:
         if P is None:
